@@ -8,8 +8,11 @@ import (
 	"encoding/json"
 	"fmt"
 	"math"
+	"os"
+	"runtime/pprof"
 	"strconv"
 	"strings"
+	"time"
 
 	ad "github.com/pbenner/autodiff"
 
@@ -139,6 +142,15 @@ func regularClass(cs *Case, B exact.Mat) string {
 	case cs.Routine == "matrixInverse" || cs.Routine == "gaussJordan":
 		p := B.PivotPerm()
 		s := "pivot-cycles=" + exact.CycleType(p)
+		if cs.N >= 5 {
+			// sizes >= 5 have dozens of cycle types: one defect must not give dozens of keys
+			s = "pivot-order=identity"
+			for i, pi := range p {
+				if pi != i {
+					s = "pivot-order=permuted"
+				}
+			}
+		}
 		if !exact.InterchangeConsistent(p) {
 			s += ",perm!=interchange-seq"
 		}
@@ -520,6 +532,11 @@ func judgeDefEq(cs *Case, M exact.Mat, lr *linref, act activation, rr callResult
 		v.outcome, v.bad, v.what = bad, bad, what
 		return v
 	}
+	if act.order < 2 {
+		// the order-2 part of the equations is not judged: do not propagate it
+		jetOrder = 1
+		defer func() { jetOrder = 2 }()
+	}
 	// jet of the input
 	Aj := newJmat(n, n, N)
 	for i := 0; i < n; i++ {
@@ -544,6 +561,20 @@ func judgeDefEq(cs *Case, M exact.Mat, lr *linref, act activation, rr callResult
 					continue
 				}
 				m.e[i*n+j] = jetOf(rr.out[off+i*n+j], N)
+			}
+		}
+		return m
+	}
+	// maxAll: largest |value|, |first| or |second derivative| of output off+i*n+j (x = its jet;
+	// the second derivatives are read from the library scalar when the jets do not carry them)
+	maxAll := func(off, i, j int, x jet) float64 {
+		m := x.maxAbs(2)
+		if x.h == nil {
+			s := rr.out[off+i*n+j]
+			for a := 0; a < N; a++ {
+				for b := 0; b < N; b++ {
+					m = math.Max(m, math.Abs(d2(s, a, b)))
+				}
 			}
 		}
 		return m
@@ -575,13 +606,13 @@ func judgeDefEq(cs *Case, M exact.Mat, lr *linref, act activation, rr callResult
 			Dfull := get(n*n, false, false, false)
 			for i := 0; i < n; i++ {
 				for j := 0; j < n; j++ {
-					if i != j && Dfull.at(i, j).maxAbs(2) != 0 {
+					if i != j && maxAll(n*n, i, j, Dfull.at(i, j)) != 0 {
 						return fail("LDL:D-not-diagonal", fmt.Sprintf("D[%d,%d] or its derivatives are nonzero", i, j))
 					}
 				}
 			}
 			for i := 0; i < n; i++ {
-				if l := L.at(i, i); l.v != 1 || l.maxAbs(2) != 1 {
+				if l := L.at(i, i); l.v != 1 || maxAll(0, i, i, l) != 1 {
 					return fail("LDL:unit-diagonal", fmt.Sprintf("L[%d,%d] is not the constant 1", i, i))
 				}
 			}
@@ -606,7 +637,7 @@ func judgeDefEq(cs *Case, M exact.Mat, lr *linref, act activation, rr callResult
 		U := get(n*n, false, false, false)
 		for i := 0; i < n; i++ {
 			for j := 0; j+1 < i; j++ {
-				if H.at(i, j).maxAbs(2) != 0 {
+				if maxAll(0, i, j, H.at(i, j)) != 0 {
 					return fail("H-not-hessenberg", fmt.Sprintf("H[%d,%d] or its derivatives are nonzero", i, j))
 				}
 			}
@@ -626,7 +657,7 @@ func judgeDefEq(cs *Case, M exact.Mat, lr *linref, act activation, rr callResult
 		Rfull := get(n*n, false, false, false)
 		for i := 0; i < n; i++ {
 			for j := 0; j < i; j++ {
-				if Rfull.at(i, j).maxAbs(2) != 0 {
+				if maxAll(n*n, i, j, Rfull.at(i, j)) != 0 {
 					return fail("R-not-upper-triangular", fmt.Sprintf("R[%d,%d] or its derivatives are nonzero", i, j))
 				}
 			}
@@ -668,7 +699,7 @@ func keyOf(cs *Case, v verdict) string {
 		// ... nor on whether the unread triangle of the input differs from the read one
 		cls = strings.Replace(cls, ",triangles-differ", "", 1)
 	}
-	if !valueLevel && strings.HasPrefix(cls, "pivot-cycles") {
+	if !valueLevel && strings.HasPrefix(cls, "pivot-") {
 		// derivative-level failures do not depend on the pivot order class
 		rest := ""
 		if strings.HasSuffix(cls, ",masked") {
@@ -711,8 +742,33 @@ type actOrd struct {
 }
 
 // patterns: activation x order list. kind: "general" | "upper" | "sym"
-func patterns(n int, kind string, symmetricInput, withV bool, light bool) []actOrd {
+//
+// large (sizes >= 5, see large.go): 1 = constant input only, 2 = + every entry activated at
+// order 1, 3 = + the same at order 2.
+func patterns(n int, kind string, symmetricInput, withV bool, light bool, large int) []actOrd {
 	var acts []string
+	if large > 0 {
+		whole := "full"
+		switch {
+		case kind == "upper":
+			whole = "upper"
+		case kind == "sym":
+			whole = "sym-upper"
+		case withV:
+			whole = "full+v"
+		}
+		var r []actOrd
+		if kind != "tri" && kind != "asym" {
+			r = append(r, actOrd{"none", 0})
+		}
+		if large >= 2 {
+			r = append(r, actOrd{whole, 1})
+		}
+		if large >= 3 {
+			r = append(r, actOrd{whole, 2})
+		}
+		return r
+	}
 	switch kind {
 	case "general":
 		for i := 0; i < n; i++ {
@@ -791,7 +847,8 @@ func patterns(n int, kind string, symmetricInput, withV bool, light bool) []actO
 //	"spd"      m from the symmetric lattice; SPD-specific routines on the SPD members
 //	"spd-asym" m = SPD member with its strict upper triangle replaced (triangles differ)
 //	"sym-any"  m from the symmetric lattice, not SPD: cholesky ForcePD (values)
-func casesFor(m exact.Mat, kind string, light, sparse bool, elems []string) []Case {
+func casesFor(m exact.Mat, f family) []Case {
+	kind, light, sparse := f.kind, f.light, f.sparse
 	n := m.N
 	A := m.Ints()
 	var cs []Case
@@ -802,16 +859,46 @@ func casesFor(m exact.Mat, kind string, light, sparse bool, elems []string) []Ca
 	for i := 0; i < n; i++ {
 		diag *= m.At(i, i)
 	}
-	for _, e := range elems {
+	for _, e := range f.elems {
+		// sizes >= 5: the level of activation patterns of this element type (0: not run)
+		large := f.large
+		if e == "Real32" {
+			large = f.large32
+		}
+		if f.large > 0 && large == 0 {
+			continue
+		}
+		seen := map[string]bool{}
 		add := func(routine, opt string, mask []bool, vec []int, ps []actOrd) {
+			inFocus := f.focus == "" || (f.focus == "upper" && (has(opt, "UT") || routine == "backSubstitution"))
 			for _, p := range ps {
+				if !inFocus && p.act != "none" {
+					continue
+				}
 				if k := actClass(p.act); sparse && (k == "row" || k == "urow" || k == "sym-upper") {
 					continue
+				}
+				// the pattern lists of the large sizes overlap (constant input): every case once
+				if id := fmt.Sprint(routine, "|", opt, "|", mask, "|", p); seen[id] {
+					continue
+				} else {
+					seen[id] = true
 				}
 				cs = append(cs, Case{Routine: routine, N: n, A: A, Vec: vec, Elem: e, Opt: opt, Mask: mask, Act: p.act, Order: p.order})
 			}
 		}
 		none := []actOrd{{"none", 0}}
+		// one pattern at order 2 (masks); sizes >= 5: as the family's level allows
+		one := func(act string) []actOrd {
+			if large > 0 {
+				lv := large
+				if !f.maskDeriv {
+					lv = 1
+				}
+				return patterns(n, map[string]string{"full": "all", "full+v": "all", "sym-upper": "sym"}[act], false, act == "full+v", light, lv)
+			}
+			return []actOrd{{act, 2}}
+		}
 		pdInv := []string{"PD", "PD+insitu"}
 		pdDet := []string{"PD", "PD+log", "PD+insitu", "PD+log+insitu"}
 		chol := []string{"", "insitu", "LDL", "LDL+insitu", "LDL+ForcePD", "LDL+ForcePD+insitu"}
@@ -827,7 +914,7 @@ func casesFor(m exact.Mat, kind string, light, sparse bool, elems []string) []Ca
 			if !m.IsSPD() {
 				continue
 			}
-			ps := append(patterns(n, "sym", true, false, light), patterns(n, "tri", true, false, light)...)
+			ps := append(patterns(n, "sym", true, false, light, large), patterns(n, "tri", true, false, light, large)...)
 			for _, o := range pdInv {
 				add("matrixInverse", o, nil, nil, ps)
 			}
@@ -843,10 +930,10 @@ func casesFor(m exact.Mat, kind string, light, sparse bool, elems []string) []Ca
 			add("cholesky", "LDL+insitu", nil, nil, none)
 			add("cholesky", "LDL+ForcePD", nil, nil, none)
 			add("cholesky", "LDL+ForcePD+insitu", nil, nil, none)
-			for _, mk := range allMasks(n) {
-				add("matrixInverse", "PD+sub", mk, nil, []actOrd{{"sym-upper", 2}})
+			for _, mk := range masksFor(n) {
+				add("matrixInverse", "PD+sub", mk, nil, one("sym-upper"))
 				if n > 1 {
-					add("matrixInverse", "PD+sub", mk, nil, []actOrd{{"full", 2}})
+					add("matrixInverse", "PD+sub", mk, nil, one("full"))
 				}
 			}
 			continue
@@ -854,7 +941,7 @@ func casesFor(m exact.Mat, kind string, light, sparse bool, elems []string) []Ca
 			if sym || !mapSymLower.effective(m).IsSPD() {
 				continue
 			}
-			ps := append(patterns(n, "asym", false, false, light), none...)
+			ps := append(patterns(n, "asym", false, false, light, large), none...)
 			for _, o := range pdInv {
 				add("matrixInverse", o, nil, nil, ps)
 			}
@@ -864,22 +951,32 @@ func casesFor(m exact.Mat, kind string, light, sparse bool, elems []string) []Ca
 			for _, o := range chol {
 				add("cholesky", o, nil, nil, ps)
 			}
-			for _, mk := range allMasks(n) {
-				add("matrixInverse", "PD+sub", mk, nil, []actOrd{{"full", 2}, {"none", 0}})
+			for _, mk := range masksFor(n) {
+				add("matrixInverse", "PD+sub", mk, nil, append(one("full"), none...))
 			}
 			continue
 		}
-		gen := patterns(n, "general", sym, false, light)
-		genV := patterns(n, "general", sym, true, light)
+		gen := patterns(n, "general", sym, false, light, large)
+		genV := patterns(n, "general", sym, true, light, large)
 		for _, r := range []string{"MdotM:A*A", "MdotM:A*At"} {
 			add(r, "", nil, nil, gen)
 		}
 		for _, r := range []string{"MdotV", "VdotM", "Outer"} {
 			add(r, "", nil, ramp(n), genV)
 		}
-		add("determinant", "", nil, nil, gen)
+		// the cofactor expansion costs n! scalar operations: differentiated up to n=6, values at
+		// n=7, not run at n=8
+		switch {
+		case n <= 6:
+			add("determinant", "", nil, nil, gen)
+		case n == 7:
+			add("determinant", "", nil, nil, none)
+		}
 		// Householder reflectors are not differentiable where the eliminated tail is zero
-		if n < 3 || m.At(2, 0) != 0 {
+		// (n >= 4: where that happens depends on the transformed matrix; values only)
+		if large > 0 {
+			add("hessenberg", "", nil, nil, none)
+		} else if n < 3 || m.At(2, 0) != 0 {
 			add("hessenberg", "", nil, nil, gen)
 		}
 		if det != 0 {
@@ -889,22 +986,27 @@ func casesFor(m exact.Mat, kind string, light, sparse bool, elems []string) []Ca
 			add("gaussJordan", "", nil, ramp(n), genV)
 			add("gramSchmidt", "", nil, nil, gen)
 		}
-		for _, mk := range allMasks(n) {
-			add("matrixInverse", "sub", mk, nil, []actOrd{{"full", 2}})
-			add("gaussJordan", "sub", mk, ramp(n), []actOrd{{"full+v", 2}})
+		for _, mk := range masksFor(n) {
+			add("matrixInverse", "sub", mk, nil, one("full"))
+			add("gaussJordan", "sub", mk, ramp(n), one("full+v"))
 		}
 		if upper && det != 0 {
-			up := patterns(n, "upper", false, false, light)
+			up := patterns(n, "upper", false, false, light, large)
 			add("matrixInverse", "UT", nil, nil, up)
 			add("matrixInverse", "UT+insitu", nil, nil, up)
 			add("gaussJordan", "UT", nil, ramp(n), up)
 			add("backSubstitution", "", nil, ramp(n), up)
+			// UpperTriangular together with Submatrix (the specialised triangular path has its
+			// own mask handling; matrixInverse PD+sub reaches it only through Cholesky)
+			for _, mk := range masksFor(n) {
+				add("gaussJordan", "UT+sub", mk, ramp(n), one("full+v"))
+			}
 		}
 		if diag != 0 {
 			// triangular-contract routines on every matrix with a regular upper triangle: the
 			// strict lower triangle (zero or not) is activated too and must be ignored
-			all := patterns(n, "all", false, false, light)
-			allV := patterns(n, "all", false, true, light)
+			all := patterns(n, "all", false, false, light, large)
+			allV := patterns(n, "all", false, true, light, large)
 			if !upper {
 				all, allV = append(all, none...), append(allV, none...)
 			}
@@ -931,6 +1033,14 @@ type family struct {
 	elems []string
 	// sparse: only single-entry and full activation patterns (large thorough lattice)
 	sparse bool
+	// large: family of size >= 5 (large.go), level of the activation patterns run with Real64:
+	// 1 values of the constant input, 2 + all entries activated at order 1, 3 + at order 2;
+	// large32: the same for Real32 (0: Real32 not run); maskDeriv: the Submatrix masks are run
+	// at that level too (otherwise on constant input only); focus "upper": only the
+	// triangular-contract routines at that level, all others on constant input only
+	large, large32 int
+	maskDeriv      bool
+	focus          string
 }
 
 func lattice(n int, alpha []int64, light bool, elems []string) family {
@@ -1040,48 +1150,69 @@ func marginBucket(r float64) string {
 
 func explore(c *vf.Ctx, fams []family) {
 	var gidx int64
+	// debugging aids: VERIF_C06_PROFILE=1 counts the wall time spent per family,
+	// VERIF_C06_ONLY=<substring> restricts the run to the families whose name contains it
+	// (reported as a cap: the evidence then says exhaustive:false)
+	prof := os.Getenv("VERIF_C06_PROFILE") != ""
+	only := os.Getenv("VERIF_C06_ONLY")
+	if only != "" {
+		c.Cap("VERIF_C06_ONLY=" + only)
+	}
 	for fi, f := range fams {
+		if only != "" && !strings.Contains(f.name, only) {
+			continue
+		}
 		for i := int64(0); i < f.count; i++ {
 			gidx++
 			if !c.Mine(gidx) {
 				continue
 			}
-			m := f.at(i)
-			if m.N == 0 {
+			if prof {
+				t0 := time.Now()
+				exploreOne(c, fi, f, i, gidx)
+				c.Count("profile-us:"+f.name, int64(time.Since(t0)/time.Microsecond))
 				continue
 			}
-			if msg := m.CrossCheck(); msg != "" {
-				c.HarnessError("reference self-check: " + msg)
-				return
-			}
-			cases := casesFor(m, f.kind, f.light, f.sparse, f.elems)
-			if len(cases) > 0 {
-				c.Count("matrices:"+f.name, 1)
-			}
-			for k := range cases {
-				cs := &cases[k]
-				rank := int64(fi)*1e15 + sumAbs(m)*1e12 + i*10000 + int64(k)
-				c.Guard(cs.Routine+"|"+cs.Opt+"|"+cs.Elem, rank, cs)
-				v := judge(cs)
-				c.Eval(1)
-				if v.nontriv {
-					c.Nontrivial(1)
-				}
-				c.Outcome(cs.Routine + "|" + cs.Opt + "|" + actClass(cs.Act) + "|" + v.outcome)
-				c.Count("outcome:"+cs.Routine+":"+v.outcome, 1)
-				if v.nontriv {
-					c.Count("margin(err/tol):"+cs.Elem+":"+marginBucket(v.margin), 1)
-				}
-				if v.rmap != "" {
-					c.Count("readset:"+cs.Routine+"("+cs.Opt+") "+floatOf(cs.Elem)+": "+v.rmap, 1)
-				}
-				if v.bad != "" {
-					c.Violate(keyOf(cs, v), fmt.Sprintf("%s(%s) %s A=%v mask=%v vec=%v act=%s order=%d: %s", cs.Routine, cs.Opt, cs.Elem, m, cs.Mask, cs.Vec, cs.Act, cs.Order, v.what), rank, cs)
-				}
-				if gidx%4099 == 0 && k == 7 {
-					c.Sample(cs)
-				}
-			}
+			exploreOne(c, fi, f, i, gidx)
+		}
+	}
+}
+
+func exploreOne(c *vf.Ctx, fi int, f family, i, gidx int64) {
+	m := f.at(i)
+	if m.N == 0 {
+		return
+	}
+	if msg := m.CrossCheck(); msg != "" {
+		c.HarnessError("reference self-check: " + msg)
+		return
+	}
+	cases := casesFor(m, f)
+	if len(cases) > 0 {
+		c.Count("matrices:"+f.name, 1)
+	}
+	for k := range cases {
+		cs := &cases[k]
+		rank := int64(fi)*1e15 + sumAbs(m)*1e12 + i*10000 + int64(k)
+		c.Guard(cs.Routine+"|"+cs.Opt+"|"+cs.Elem, rank, cs)
+		v := judge(cs)
+		c.Eval(1)
+		if v.nontriv {
+			c.Nontrivial(1)
+		}
+		c.Outcome(cs.Routine + "|" + cs.Opt + "|" + actClass(cs.Act) + "|" + v.outcome)
+		c.Count("outcome:"+cs.Routine+":"+v.outcome, 1)
+		if v.nontriv {
+			c.Count("margin(err/tol):"+cs.Elem+":"+marginBucket(v.margin), 1)
+		}
+		if v.rmap != "" {
+			c.Count("readset:"+cs.Routine+"("+cs.Opt+") "+floatOf(cs.Elem)+": "+v.rmap, 1)
+		}
+		if v.bad != "" {
+			c.Violate(keyOf(cs, v), fmt.Sprintf("%s(%s) %s A=%v mask=%v vec=%v act=%s order=%d: %s", cs.Routine, cs.Opt, cs.Elem, m, cs.Mask, cs.Vec, cs.Act, cs.Order, v.what), rank, cs)
+		}
+		if gidx%4099 == 0 && k == 7 {
+			c.Sample(cs)
 		}
 	}
 }
@@ -1090,7 +1221,7 @@ func main() {
 	vf.Main(vf.Spec{
 		ID:    "C06",
 		Level: "exploration",
-		Rule: "every integer matrix of the stated lattices x routine (MdotM, MdotV, VdotM, Outer, matrixInverse, gaussJordan solve, backSubstitution, determinant naive/PD/log, cholesky/LDL/LDL+ForcePD, gramSchmidt, hessenbergReduction with U) x option set admissible for the matrix (exact SPD / triangular / regular tests) x element type (Real64, Real32) " +
+		Rule: "every integer matrix of the stated lattices x routine (MdotM, MdotV, VdotM, Outer, matrixInverse, gaussJordan solve (default, UpperTriangular, Submatrix over the masks, UpperTriangular+Submatrix), backSubstitution, determinant naive/PD/log, cholesky/LDL/LDL+ForcePD, gramSchmidt, hessenbergReduction with U) x option set admissible for the matrix (exact SPD / triangular / regular tests) x element type (Real64, Real32) " +
 			"x activation pattern (every single entry, every row, full matrix, full matrix + vector, symmetric upper triangle with A_ij and A_ji carrying the same variable; for UpperTriangular options only entries on or above the diagonal, and all n*n entries) x order 1,2; " +
 			"each case runs the routine on the magic type and on the plain float type (fast path) and compares values, then compares every first and second derivative slot of every output with analytic matrix calculus from the exact inverse/cofactors " +
 			"(or evaluates the differentiated defining equation in an independent jet arithmetic); in-situ buffers are pre-filled with stale values and derivative state. " +
@@ -1098,6 +1229,11 @@ func main() {
 			"inputs: every SPD lattice member, every SPD member with its strict upper triangle replaced (S+(1,2,3), zero, +-1 at one position; thorough: every assignment of lattice values), every lattice matrix with non-zero diagonal for the triangular routines; " +
 			"on each the generic path must return the float path's values (order 0, and every activation) and the derivatives of g(R(A)), R = the observed read map: activation patterns every single entry of a symmetric input, strict lower triangle + diagonal, strict upper triangle only, all n*n entries; " +
 			"LDL+ForcePD additionally on every symmetric lattice member that is not SPD (values). " +
+			"Sizes 5 and 6 (thorough also 7 and 8), structured families enumerated completely: every row permutation of unit upper-triangular templates (every pivot order), companion matrices in four orientations over a coefficient alphabet, the identity bordered by a {0,1} row and column, unit upper-triangular Toeplitz {0,1,-1}; " +
+			"SPD tridiagonal (diag 2, off {0,1,-1}), SPD pentadiagonal, SPD arrowhead with the border first or last, Gram matrices B*B' of lower-triangular Toeplitz integer factors (dense, integer Cholesky factor), Gram/tridiagonal members with the strict upper triangle replaced, symmetric tridiagonal members that are not SPD; " +
+			"each member x every routine and option set above that is admissible for it (Submatrix masks: full, empty, every leave-one-out, the two alternating, leading and trailing half) x element type (Real64 against the Float64 fast paths; Real32 against the Float32 fast paths on the symmetric families) " +
+			"x {constant input: generic-path values = fast-path values and no derivative leaks; all entries (+ vector) activated as individual variables at order 1; the same at order 2; symmetric families also the symmetric parametrisation} up to the level named in the family's counter ('matrices:<family> [Real64:..,Real32:..]'); " +
+			"quick: order 2 on one size-5 family per routine group (row permutations: general routines; upper Toeplitz: triangular-contract routines; Gram: SPD routines), order 1 on further size-5 families and on three size-6 families, values on all; thorough: order 2 on every size-5 family and on one size-6 family of each kind, order 1 on the other size-6 families and at sizes 7 and 8 (levels: see the counters). " +
 			"Jacobian/Hessian helpers: every expression of a depth-2 family x point lattice x receiver type x argument type x argument state (plain, already activated in a wider variable set, carrying stale order-1 / order-2 gradient and Hessian content of the same N from an earlier computation) against an independent jet evaluation",
 		Assume: []string{
 			"tolerances: values 1024*u*kappa*scale, fast-vs-generic 64*u*kappa*scale, derivatives 1024*u*kappa*scale^(order+1); derivative comparison gated (values only) when 1024*u*kappa > 0.02 for the element type",
@@ -1105,6 +1241,7 @@ func main() {
 			"LDL+ForcePD: differentiated (as L*D*L'=A) only on SPD effective input, where the Gill-Murray modification is provably inactive; elsewhere fast path = generic path on values, compared only when the float run's smallest pivot is >= 1/4",
 			"stale in-situ buffers carry the same number of variables and order as the input (what a previous call with the same variables leaves behind), or a foreign state when the input is constant",
 			"singular inputs are not differentiated (C04 judges them)",
+			"sizes >= 5: hessenbergReduction is compared on values only (where a Householder reflector is not differentiable depends on the transformed matrix); in the quick tier the Submatrix masks are run on constant input only; the naive determinant (n! operations) is differentiated up to n=6, compared on values at n=7 and not run at n=8; single-entry and single-row activation patterns are not repeated (all entries are activated as individual variables, which yields every first and second partial derivative)",
 		},
 		Run: func(c *vf.Ctx) {
 			a5 := []int64{0, 1, -1, 2, -2}
@@ -1126,8 +1263,16 @@ func main() {
 					asymLattice(2, a5, false, false, both), asymLattice(3, a5, true, false, both),
 					symAnyLattice(1, a5, both), symAnyLattice(2, a5, both), symAnyLattice(3, a3, both)}
 			}
-			explore(c, fams)
-			exploreHelpers(c)
+			if p := os.Getenv("VERIF_C06_CPUPROFILE"); p != "" {
+				if f, err := os.Create(fmt.Sprintf("%s.%d", p, c.Shard)); err == nil {
+					pprof.StartCPUProfile(f)
+					defer pprof.StopCPUProfile()
+				}
+			}
+			explore(c, append(fams, largeFamilies(c.Thorough())...))
+			if os.Getenv("VERIF_C06_ONLY") == "" {
+				exploreHelpers(c)
+			}
 		},
 		Replay: func(c *vf.Ctx, raw json.RawMessage) {
 			var cs Case
